@@ -177,6 +177,10 @@ pub fn run_exchange(rq: &RqCfg, payload_bytes: &[u8], conn: &mut Conn, s: &Sched
             if off >= payload_bytes.len() && g!(b.can_proceed(), "can_proceed") {
                 break;
             }
+            if off >= payload_bytes.len() && !chunked && !payload_bytes.is_empty() {
+                // a Content-Length body is finished once its N bytes are accounted for, however they were reported
+                return fail(o, "Content-Length body not finished although all N bytes were written / reported", conn);
+            }
             let size = s.send_sizes[si % s.send_sizes.len()];
             si += 1;
             let mut input = &payload_bytes[off..];
@@ -188,6 +192,18 @@ pub fn run_exchange(rq: &RqCfg, payload_bytes: &[u8], conn: &mut Conn, s: &Sched
                 let _ = g!(b.is_chunked(), "is_chunked");
             }
             let mut out = vec![0u8; size];
+            if !chunked && !input.is_empty() && s.queries % 3 == 2 && guard % 2 == 0 {
+                // zero-copy path: the caller puts the bytes on the wire itself and reports them
+                let k = input.len().min(size.max(1));
+                match g!(b.consume_direct_write(k), "consume_direct_write") {
+                    Ok(()) => {
+                        wire.extend(&input[..k]);
+                        off += k;
+                    }
+                    Err(_) => return fail(o, "direct write refused", conn),
+                }
+                continue;
+            }
             match g!(b.write(input, &mut out), "body write") {
                 Ok((c, p)) => {
                     wire.extend(&out[..p.min(size)]);
@@ -353,6 +369,9 @@ pub fn render_response(r: &RespSpec, rng: &mut StdRng) -> (Vec<u8>, Vec<(usize, 
     if (300..400).contains(&r.status) && r.status != 304 {
         b.extend(b"Location: /elsewhere\r\n");
         loc_end = Some(b.len());
+    } else if r.status == 201 || (r.status == 200 && r.body.len() % 2 == 1) {
+        // a Location field on a response that is no redirect (201 Created): cuts after it are ordinary cuts
+        b.extend(b"Location: /created/item/17\r\nX-After: 1\r\n");
     }
     b.extend(b"\r\n");
     if let Some(le) = loc_end {
@@ -393,7 +412,7 @@ pub fn c01(o: &Opts, t: &mut Tracer) -> Value {
         let method = ["GET", "HEAD", "POST", "PUT", "GET", "POST"][ci % 6];
         let body_m = matches!(method, "POST" | "PUT");
         let ver10 = method != "PUT" && ci % 5 == 0;
-        let framing = if body_m { ["default", "cl", "chunked"][ci % 3] } else { "default" };
+        let framing = if body_m { ["default", "cl", "chunked"][(ci / 2) % 3] } else { "default" };
         let payload_len = if body_m { [0usize, 5, 3000, 11000][(ci / 3) % 4] } else { 0 };
         let pl = payload(payload_len, ci as u64);
         let expect = body_m && ci % 4 == 1;
